@@ -71,7 +71,8 @@ def _close(x, y):
 
 def check():
     try:
-        with open('/repo/test/rbql_unit_tests.json') as f:
+        from vf.paths import REPO
+        with open(REPO + '/test/rbql_unit_tests.json') as f:
             tests = json.load(f)
     except Exception as e:  # noqa
         return 'cannot read repository test vectors: %r' % e
